@@ -142,7 +142,7 @@ theorem FoldRel.goTree {p : Bytes} {t c : Re} (h : goTree p t = some c) : FoldRe
       | some m =>
         rw [hs] at h
         cases h
-        exact FoldRel.applyFlags m t 0
+        exact FoldRel.applyFlags m.1 t 0
 
 /-! ### What the items say about a match -/
 
